@@ -5,7 +5,7 @@ import time
 import warnings
 from typing import TYPE_CHECKING, Any, Literal, TypeAlias
 
-from pipefunc.cache import DiskCache, HybridCache, LRUCache, SimpleCache, to_hashable
+from pipefunc.cache import _MISSING, DiskCache, HybridCache, LRUCache, SimpleCache, to_hashable
 
 from ._types import OUTPUT_TYPE
 
@@ -123,11 +123,12 @@ def get_result_from_cache(
 
     # Used in _run
     result_from_cache = False
-    if cache_key is not None and cache_key in cache:
-        r = cache.get(cache_key)
-        if r is None and cache_key not in cache:
-            # The entry was evicted (by another process) in between
-            return False, False
+    if cache_key is None:
+        return False, False
+    # A single lookup: with separate `in` and `get` operations the entry can be
+    # evicted (by another process) in between.
+    r = cache.get(cache_key, _MISSING)
+    if r is not _MISSING:
         _update_all_results(func, r, output_name, all_results, lazy)
         result_from_cache = True
         if not full_output:
